@@ -811,9 +811,87 @@ func checkNameConflicts(c *vm.Ctx, r *vm.Rand) {
 	}
 }
 
+// checkBigValues: slices around the sizes at which the decoder's step-by-step buffers change step.
+func checkBigValues(c *vm.Ctx, r *vm.Rand) {
+	type big struct {
+		A []byte   `nbt:"a"`
+		S []int8   `nbt:"s"`
+		B []int32  `nbt:"b"`
+		C []int64  `nbt:"c"`
+		L []string `nbt:"l"`
+		X any      `nbt:"x"`
+		Z string   `nbt:"z"`
+	}
+	for _, n := range []int{65535, 65536, 65537, 70000, 100000, 131073, 200000} {
+		v := big{A: r.Bytes(n), S: make([]int8, n/2+1), Z: "after"}
+		for i := range v.S {
+			v.S[i] = int8(i)
+		}
+		v.X = r.Bytes(n + 3)
+		rv := reflect.New(reflect.TypeOf(v)).Elem()
+		rv.Set(reflect.ValueOf(v))
+		roundTripQuiet(c, "big", rv, r.Bool(), r.Bool(), fmt.Sprintf("byte arrays of %d bytes", n))
+	}
+	for _, n := range []int{1023, 1024, 1025, 4095, 4096, 4097, 5000, 8193, 10000, 70000} {
+		v := big{B: make([]int32, n), C: make([]int64, n+1), L: make([]string, n/4+1), X: int64(n), Z: "after"}
+		for i := range v.B {
+			v.B[i] = int32(r.Uint64())
+		}
+		for i := range v.C {
+			v.C[i] = int64(r.Uint64())
+		}
+		for i := range v.L {
+			v.L[i] = fmt.Sprint(i)
+		}
+		rv := reflect.New(reflect.TypeOf(v)).Elem()
+		rv.Set(reflect.ValueOf(v))
+		roundTripQuiet(c, "big", rv, r.Bool(), r.Bool(), fmt.Sprintf("int/long arrays and lists of about %d elements", n))
+	}
+	c.Cover("big-values.roundtrip")
+}
+
+// roundTripQuiet is roundTrip for values too large to print: the witness describes them instead.
+func roundTripQuiet(c *vm.Ctx, sub string, v reflect.Value, network, byPtr bool, desc string) {
+	wit := func() any { return map[string]any{"go_type": short(v.Type().String()), "go_value": desc, "network": network, "by_pointer": byPtr} }
+	var buf bytes.Buffer
+	var err error
+	if c.Guard(sub+"/marshal", wit, func() {
+		enc := nbt.NewEncoder(&buf)
+		enc.NetworkFormat(network)
+		if byPtr {
+			err = enc.Encode(v.Addr().Interface(), "")
+		} else {
+			err = enc.Encode(v.Interface(), "")
+		}
+	}) {
+		return
+	}
+	c.Eval(vm.HashStr(sub, desc, fmt.Sprint(network, byPtr)), true)
+	if err != nil {
+		c.Violation(sub+"/marshal-error/"+vm.NormErr(err.Error()), "Marshal returned an error: "+err.Error(), wit())
+		return
+	}
+	out := reflect.New(v.Type())
+	if c.Guard(sub+"/unmarshal", wit, func() {
+		dec := nbt.NewDecoder(bytes.NewReader(buf.Bytes()))
+		dec.NetworkFormat(network)
+		_, err = dec.Decode(out.Interface())
+	}) {
+		return
+	}
+	if err != nil {
+		c.Violation(sub+"/unmarshal-error/"+vm.NormErr(err.Error()), "decoding the encoding of v into a fresh variable of v's type failed: "+err.Error(), wit())
+		return
+	}
+	if d := gotypes.EqualGo(v, out.Elem()); d != "" {
+		c.Violation(sub+"/roundtrip-mismatch/"+culprit(v.Type(), diffPath(d)), "Unmarshal(Marshal(v)) != v: "+short(d), wit())
+	}
+}
+
 func run(c *vm.Ctx) {
 	if c.Shard == 0 {
 		checkNameConflicts(c, c.Rand("conflicts"))
+		checkBigValues(c, c.Rand("big"))
 	}
 	r := c.Rand("types")
 	tg := gotypes.New(r)
